@@ -239,6 +239,10 @@ C15_Cells ==
          \* law at a target on the OTHER side of m_tau from the reference (2 leptons below, 3 above)
   {[clause |-> cl, order |-> n, qed |-> q, running |-> TRUE, method |-> "exact", nf |-> f] :
      cl \in {"rge-tau-down", "rge-tau-up"}, n \in Orders, q \in 1..2, f \in 3..4}
+  \cup   \* ... and the solution is ONE solution from the reference: continuous at m_tau (the local law on both sides
+         \* and the value at the reference do not exclude a jump where the path is cut into two legs)
+  {[clause |-> cl, order |-> n, qed |-> q, running |-> r, method |-> m, nf |-> f] :
+     cl \in {"tau-cont-down", "tau-cont-up"}, n \in Orders, q \in 1..2, r \in BOOLEAN, m \in {"exact", "expanded"}, f \in 3..4}
 C15_InDomain(c) == c.running => c.qed >= 1     \* alpha_em can only run when QED is switched on
 (* The RGE truncated at order n keeps a^2..a^(n+1); "agrees up to terms beyond the     *)
 (* working order" = the absolute difference is O(a^(n+2)); with running alpha_em the    *)
@@ -249,6 +253,7 @@ C15_Req(c) ==
     [] c.clause = "monotone" -> Dec(99, "no-inversion")
     [] c.clause = "rge" -> Dec(7, "local-rge-1e-7")
     [] c.clause \in {"rge-tau-down", "rge-tau-up"} -> Dec(3, "local-rge-across-tau-1e-3")
+    [] c.clause \in {"tau-cont-down", "tau-cont-up"} -> Dec(3, "continuous-at-the-tau-mass")
     [] c.clause = "expanded-order" -> Exp(100 * C15_ExpandedOrder(c) - 35, 9000, "beyond-working-order")
 
 (* =============================== dispatch ===================================== *)
